@@ -110,6 +110,12 @@ func oracle(c *Case) (stats, error) {
 		if err == nil && !reflect.DeepEqual(fix.FromResult(res), fix.FromResult(rres)) {
 			return st, fmt.Errorf("step %d %s GROUP BY %+q: configured index returned %s, a fresh cache-less index returns %s", step, q.Expr.String(), q.GroupBy, short(fix.FromResult(res)), short(fix.FromResult(rres)))
 		}
+		if gen.HasEmptyNode(q.Expr) {
+			// what an operator node without operands means is the library's
+			// business; transparency of the cache was checked against the
+			// cache-less handle above
+			continue
+		}
 		if cerr := fix.CompareOutcome(d, q.Expr, q.GroupBy, res, err); cerr != nil {
 			return st, fmt.Errorf("step %d %s GROUP BY %+q: %v", step, q.Expr.String(), q.GroupBy, cerr)
 		}
@@ -191,7 +197,7 @@ func drawCaseN(t *rapid.T, maxRecipe, minHist, maxHist int) *Case {
 		case i == 0 || k < 2:
 			q = Q{Expr: pool.Expr(t, gen.ExprOpts{MaxDepth: 4}), Kind: "fresh"}
 		case k < 7:
-			q = Q{Expr: pool.Confuse(t, exprs, gen.ExprOpts{MaxDepth: 3}), Kind: "confuse"}
+			q = Q{Expr: pool.Confuse(t, exprs, gen.ExprOpts{MaxDepth: 3, AllowEmpty: true}), Kind: "confuse"}
 		case k < 9:
 			q = c.History[rapid.IntRange(0, len(c.History)-1).Draw(t, "again")]
 			q.Kind = "repeat"
